@@ -36,6 +36,13 @@ def step (σ : St) (op obs : List String) : St × List Msg :=
     (σ, verdict "mutesI_next_call_exact" after active alert
         ++ (if during = "1" ∧ ¬ bf then [Msg.propfail "mutes_interleaved_bracket" "verdict" s!"raced call answers true, nothing active matches {alert}"] else [])
         ++ [.tag (if during = "1" then "race:set-seen-by-raced-call" else "race:set-behind-raced-call")])
+  | ["limitrace", _], [mx, stored, okN, errN] =>
+    -- AM.SilLimits.count_le_max over any interleaving of whole Set calls: m-1 stored + three creates => exactly one fits
+    (σ, (if toNat! stored ≤ toNat! mx then [] else [Msg.propfail "count_le_max" "concurrent-creates-exceed-limit"
+            s!"{stored} silences stored with max_silences={mx}: {okN} of three concurrent creates were accepted with one slot left"])
+        ++ (if toNat! okN + toNat! errN = 3 ∧ (toNat! okN = 1 ∨ toNat! stored > toNat! mx) then [] else
+             [.diff "limitrace.accepted" "1 accepted, 2 refused" s!"{okN} accepted, {errN} refused"])
+        ++ [.tag "limitrace"])
   | ["mergerace", _, _], [final, s0, bu, eu] =>
     -- three versions of the raced id: stored (update time s0), the batch's edit (bu > s0), the API expiry (eu > bu):
     -- AM.Silence.newest_wins / merge_monotone — the id holds the expiry whatever the interleaving
